@@ -173,9 +173,12 @@ class Registry(Part):
 
 # ------------------------------------------------------------------ back references
 
-def net(ss, nbus=3):
+def net(ss, nbus=3, areas=None):
+    areas = areas if areas is not None else [1 + k % 2 for k in range(nbus)]
+    for a in (1, 2):
+        ss.add('Area', dict(idx=a))
     for k in range(nbus):
-        ss.add('Bus', dict(idx=k + 1, Vn=110, area=1 + k % 2))
+        ss.add('Bus', dict(idx=k + 1, Vn=110, area=areas[k]))
     for k in range(nbus - 1):
         ss.add('Line', dict(idx=f'L{k}', bus1=k + 1, bus2=k + 2, x=0.1, r=0.01, Vn1=110, Vn2=110))
     ss.add('Slack', dict(idx='S', bus=1, Vn=110))
@@ -194,7 +197,7 @@ class BackRefs(Part):
     def describe(self, tier):
         return ('3-bus net, areas 1/2; machines (GENCLS / GENROU mixed) on static generators {S, G2, G3}: all assignments '
                 'of <= 3 machines; exciters (EXDC2 / IEEEX1) and governors (TGOV1) on machines: all assignments of <= 3; '
-                'BackRef lists on StaticGen, SynGen, Area compared with the reference multiset after setup and after each of two '
+                'optional links (bus -> area, machine -> COI) unset / set in every order over 3 devices; BackRef lists on StaticGen, SynGen, Area, COI compared with the reference multiset after setup and after each of two '
                 'System.reset() calls')
 
     def cases(self, tier):
@@ -209,18 +212,30 @@ class BackRefs(Part):
             for exc in itertools.product([0, 1], repeat=2):
                 for gov in itertools.product([0, 1, None], repeat=2):
                     out.append(dict(syn=list(tgt), exc=list(exc), gov=list(gov)))
+        # optional links left unset for some devices and set for others, in every order: bus -> area, machine -> COI
+        for areas in itertools.product([None, 1, 2], repeat=3):
+            out.append(dict(syn=['S', 'G2'], exc=[], gov=[], areas=list(areas)))
+        for n in (1, 2, 3):
+            for coi in itertools.product([None, 'C1'], repeat=n):
+                out.append(dict(syn=gens[:n], exc=[], gov=[], coi=list(coi)))
+                if n == 3:
+                    out.append(dict(syn=gens[:n], exc=[], gov=[], coi=list(coi), areas=[None, 2, 1]))
         return out
 
     def execute(self, case):
         import andes
         out = Outcome()
         ss = andes.System(no_output=True, default_config=True)
-        net(ss)
+        areas = case.get('areas') or [1, 2, 1]
+        net(ss, areas=areas)
         bus_of = {'S': 1, 'G2': 2, 'G3': 3}
         syn_ids = []
+        coi = case.get('coi') or [None] * len(case['syn'])
+        if case.get('coi'):
+            ss.add('COI', dict(idx='C1'))
         for k, g in enumerate(case['syn']):
             model = 'GENCLS' if k % 2 == 0 else 'GENROU'
-            idx = ss.add(model, dict(idx=f'M{k}', bus=bus_of[g], gen=g, Vn=110, M=6.0, D=1.0,
+            idx = ss.add(model, dict(idx=f'M{k}', bus=bus_of[g], gen=g, Vn=110, M=6.0, D=1.0, coi=coi[k],
                                      gammap=1.0 / max(1, case['syn'].count(g)),
                                      gammaq=1.0 / max(1, case['syn'].count(g))))
             syn_ids.append(idx)
@@ -271,10 +286,18 @@ class BackRefs(Part):
                 if sorted(t) != sorted(gov_ref.get(m, [])):
                     out.bad('backref_group_wrong:SynGen.TurbineGov' + sfx, f'{m}: {t} vs {gov_ref.get(m, [])}')
             # Area.Bus
-            for a, buses in ((1, [1, 3]), (2, [2])):
-                lst = list(ss.Area.Bus.v[ss.Area.idx2uid(a)]) if a in ss.Area.uid else None
-                if lst is not None and sorted(lst) != buses:
-                    out.bad('backref_model_wrong:Area.Bus' + sfx, f'area {a}: {lst} vs {buses}')
+            for a in (1, 2):
+                buses = [k + 1 for k in range(3) if areas[k] == a]
+                lst = list(ss.Area.Bus.v[ss.Area.idx2uid(a)])
+                if sorted(lst) != buses:
+                    out.bad('backref_model_wrong:Area.Bus' + sfx, f'area {a}: {lst} vs the buses that name it {buses} '
+                            f'(bus areas {areas})')
+            if case.get('coi'):
+                exp_c = [m for m, c in zip(syn_ids, coi) if c == 'C1']
+                lst = list(ss.COI.SynGen.v[ss.COI.idx2uid('C1')])
+                if sorted(lst) != sorted(exp_c):
+                    out.bad('backref_model_wrong:COI.SynGen' + sfx, f'COI C1: {lst} vs the machines that name it {exp_c} '
+                            f'(machine coi fields {coi})')
             # external parameter resolution follows the index field
             for m, g in zip(syn_ids, case['syn']):
                 mdl = ss.SynGen.idx2model(m)
